@@ -382,7 +382,8 @@ func Solve(query string, timeoutS int, seed int, only []string) SolverResult {
 			return variant{name, []string{bin, fmt.Sprintf("-T:%d", timeoutS), "smt.auto_config=false", "smt.mbqi=false",
 				fmt.Sprintf("smt.random_seed=%d", seed), file}}
 		}
-		secondary = append(secondary, em("z3-4.8.12/ematch", "/usr/bin/z3"), em("z3-5.1.0/ematch", "z3-new"))
+		primary = append(primary, em("z3-4.8.12/ematch", "/usr/bin/z3"))
+		secondary = append(secondary, em("z3-5.1.0/ematch", "z3-new"))
 		tfile := file + ".tactic.smt2"
 		tq := strings.Replace(query, "(check-sat)", "(check-sat-using (then simplify propagate-values solve-eqs smt))", 1)
 		if tq != query && !strings.Contains(query, "(get-value") {
